@@ -183,9 +183,10 @@ func c15IndexOf(secs []c15Section, off uint64) int {
 //     parent; a parentless group is the last one and is not empty.
 //
 // Together these pin the grouping down exactly: group boundaries are the blocks.
+// Sections [0,skip) are skipped (SetSkip) whatever their kind: never delivered, but counted in the offsets.
 // wantFinal=false (traversal ended with an error): no parentless group may be delivered at all and
 // the objects after the last block are not delivered.
-func c15CheckRecord(tag string, img []byte, secs []c15Section, n int, kinds []byte, ign []iplddecoders.Kind, got []c15Group, wantFinal bool) {
+func c15CheckRecord(tag string, img []byte, secs []c15Section, skip, n int, kinds []byte, ign []iplddecoders.Kind, got []c15Group, wantFinal bool) {
 	delivered := make([]bool, len(secs))
 	last := -1
 	lastBlock := -1
@@ -193,7 +194,7 @@ func c15CheckRecord(tag string, img []byte, secs []c15Section, n int, kinds []by
 	for gi, g := range got {
 		for _, ch := range g.children {
 			idx := c15IndexOf(secs, ch.Offset)
-			verifAssert(idx >= 0 && idx < n, tag+": a delivered child does not start at a section boundary of the file")
+			verifAssert(idx >= skip && idx < n, tag+": a delivered child does not start at a (non-skipped) section boundary of the file")
 			verifAssert(idx > last, tag+": objects delivered out of file order or more than once")
 			last = idx
 			delivered[idx] = true
@@ -202,7 +203,7 @@ func c15CheckRecord(tag string, img []byte, secs []c15Section, n int, kinds []by
 		}
 		if g.hasParent {
 			idx := c15IndexOf(secs, g.parent.Offset)
-			verifAssert(idx >= 0 && idx < n, tag+": a delivered block does not start at a section boundary of the file")
+			verifAssert(idx >= skip && idx < n, tag+": a delivered block does not start at a (non-skipped) section boundary of the file")
 			verifAssert(idx > last, tag+": blocks delivered out of file order or more than once")
 			last = idx
 			lastBlock = idx
@@ -217,7 +218,7 @@ func c15CheckRecord(tag string, img []byte, secs []c15Section, n int, kinds []by
 	}
 	verifAssert(ok, tag+": a delivered parent is not a block, or a delivered child is a block or of an ignored kind")
 	miss := true
-	for i := 0; i < n; i++ {
+	for i := skip; i < n; i++ {
 		if delivered[i] {
 			continue
 		}
@@ -230,7 +231,7 @@ func c15CheckRecord(tag string, img []byte, secs []c15Section, n int, kinds []by
 	if !wantFinal {
 		// every block among the first n sections must have been delivered even though Run failed later
 		all := true
-		for i := 0; i < n; i++ {
+		for i := skip; i < n; i++ {
 			if !delivered[i] {
 				all = all && iplddecoders.Kind(kinds[i]) != iplddecoders.KindBlock
 			}
@@ -247,25 +248,36 @@ func c15NewReader(img []byte, H int) *carreader.CarReader {
 	return carreader.VerifC15NewCarReader(br, uint64(H))
 }
 
-// VerifC15Run — C15.run / C15.growth: complete CAR images, every kind sequence, every interleaving.
+// VerifC15Run — C15.run.* / C15.literal / C15.slow / C15.skip: complete CAR images, every kind
+// sequence, every interleaving of the reading goroutine and the flusher goroutine.
 func VerifC15Run() {
 	const tag = "C15.run"
 	verifC15QueueCap = verifParam("queuecap", 1)
-	verifC15ObjectCap = verifParam("objcap", 5000)
+	verifC15ObjectCap = verifParam("objcap", 1)
 	maxK := verifParam("maxk", 3)
 	minK := verifParam("mink", 0)
 	k := minK + verifChoice("sections", maxK-minK+1)
-	lens := c15DataLens[verifChoice("lens", verifParam("lensets", 1))]
+	lens := c15DataLens[verifParam("lensbase", 0)+verifChoice("lens", verifParam("lensets", 1))]
 	H := 11 + 48*verifChoice("header", verifParam("headers", 1))
-	ign := c15IgnoreSet(verifChoice("ignore", verifParam("ignoresets", 4)))
+	ign := c15IgnoreSet(verifParam("ignorebase", 0) + verifChoice("ignore", verifParam("ignoresets", 1)))
+	skip := 0
+	if ms := verifParam("maxskip", 0); ms > 0 {
+		if ms > k {
+			ms = k
+		}
+		skip = verifChoice("skip", ms+1)
+	}
 	kinds := verifBytes("kind", k)
 	img, secs := c15Image(H, k, lens, kinds)
 
 	cb, got := c15Recorder(verifParam("slow", 0) == 1)
 	oa := NewObjectAccumulator(c15NewReader(img, H), iplddecoders.KindBlock, cb, ign...)
+	if skip > 0 {
+		oa.SetSkip(uint64(skip))
+	}
 	err := oa.Run(context.Background())
 	verifAssert(err == nil, tag+": Run failed on a well-formed CAR")
-	// Run returns only after every callback has finished: the record is complete and stable now
-	c15CheckRecord(tag, img, secs, k, kinds, ign, *got, true)
+	// Run returns only after every callback has finished: the record must be complete and stable now
+	c15CheckRecord(tag, img, secs, skip, k, kinds, ign, *got, true)
 	verifReach("end")
 }
